@@ -282,6 +282,9 @@ FX_XSD = f'''<?xml version="1.0" encoding="UTF-8"?>
         <xs:element name="s" type="xs:string" fixed="a b" minOccurs="0" maxOccurs="unbounded"/>
         <xs:element name="n" type="xs:decimal" minOccurs="0" maxOccurs="unbounded"/>
         <xs:element name="q" type="xs:positiveInteger" default="1" minOccurs="0" maxOccurs="unbounded"/>
+        <xs:element name="mx" fixed="abc" minOccurs="0" maxOccurs="unbounded">
+          <xs:complexType mixed="true"><xs:sequence><xs:element name="b" type="xs:string" minOccurs="0"/></xs:sequence></xs:complexType>
+        </xs:element>
       </xs:sequence>
       <xs:attribute name="k" type="xs:decimal" fixed="2.50"/>
     </xs:complexType>
@@ -536,6 +539,9 @@ def gen_fx(rng, fault=None):
     # an empty q is valid only because its default is applied (use_defaults option)
     for _ in range(rng.choice((0, 0, 1, 2))):
         root.children.append(N(F, 'q', text=rng.choice(('', '', '3', '0'))))
+    # mixed content with a fixed value: an empty element takes the value, any other text is compared with it
+    for _ in range(rng.choice((0, 0, 1, 2))):
+        root.children.append(N(F, 'mx', text=rng.choice(('abc', '', ' ', 'abd', None))))
     return root
 
 
